@@ -36,7 +36,7 @@ def pct(b):
     if isinstance(b, str):
         b = b.encode("latin-1")
     if b == b"":
-        return "%"  # never used: empty args are not representable; callers avoid them
+        return "%_"
     return "".join(chr(c) if (48 <= c <= 57 or 65 <= c <= 90 or 97 <= c <= 122 or c in b"-._") else "%%%02x" % c for c in b)
 
 
